@@ -1,17 +1,27 @@
-#!/bin/sh
+#!/bin/bash
 # usage: tools/benign.sh [Cxx ...] — every behaviour-preserving refactoring kept in benign/ must leave the checks silent.
-# Prints "silent"/"ALARM" per patch and property; exit 1 if any alarm.
+# Each patch is applied to a scratch worktree and the property's check (plus sibling checks that look at the same
+# functions) must exit 0. VERIF_JOBS patches in parallel (default 6). Prints "silent"/"ALARM"; exit 1 if any alarm.
 cd "$(dirname "$0")/.."
 props="$*"
-rc=0
+if [ -z "${VERIF_BIN:-}" ]; then ./setup.sh >/dev/null 2>&1 || { echo "BUILD FAILED"; exit 2; }; fi
+one() {
+  f=$1; q=$2; b=$(basename "$f")
+  out=$(tools/mut.sh "$f" $q 2>&1); code=$?
+  if [ $code -eq 0 ]; then echo "silent $b [$q]"; else echo "ALARM  $b [$q] (exit $code)"; echo "$out" | grep -E "^  (VIOL|UNDEC|ANCHOR)|FATAL|PATCH" | cut -c1-260 | sed 's/^/    /'; fi
+}
+export -f one
+list=$(mktemp)
 for f in benign/*.diff; do
   b=$(basename "$f"); p=${b%%-*}
   if [ -n "$props" ] && ! echo " $props " | grep -q " $p "; then continue; fi
   also=""
-  case $p in C08) also=C09;; C03) also=C04;; C05) also="C08 C09";; C13) also=C12;; esac
-  for q in $p $also; do
-    out=$(tools/mut.sh "$f" $q 2>&1); code=$?
-    if [ $code -eq 0 ]; then echo "silent $b [$q]"; else echo "ALARM  $b [$q] (exit $code)"; echo "$out" | grep -E "^  (VIOL|UNDEC|ANCHOR)|FATAL|PATCH" | cut -c1-260 | sed 's/^/    /'; rc=1; fi
-  done
+  case $p in C08) also=C09;; C09) also=C08;; C03) also="C04 C05 C06";; C04) also="C03 C06";; C05) also="C08 C09";; C13) also=C12;; C12) also=C13;; esac
+  for q in $p $also; do echo "$f $q" >> "$list"; done
 done
-exit $rc
+res=$(xargs -a "$list" -P "${VERIF_JOBS:-6}" -L 1 bash -c 'one "$0" "$1"')
+rm -f "$list"
+echo "$res" | grep -v "^ " | sort
+echo "$res" | grep -A4 "^ALARM" | grep "^ " 
+echo "$res" | grep -q "^ALARM" && exit 1
+exit 0
